@@ -317,6 +317,16 @@ func Run(c *hx.Ctx) {
 		sgCases(c)
 		return
 	}
+	if len(c.Args) >= 1 && c.Args[0] == "pgen" { // only the pooled-proxy-object generation kind (4 args: one given case)
+		if len(c.Args) == 4 {
+			old := runtime.GOMAXPROCS(1)
+			pgRun(c, c.Args[1], c.Args[2], c.Args[3])
+			runtime.GOMAXPROCS(old)
+			return
+		}
+		pgCases(c)
+		return
+	}
 	if len(c.Args) >= 1 && c.Args[0] == "h2tbl" { // only the HTTP/2 client stream table kind (3 args: one given script)
 		if len(c.Args) == 3 {
 			b, _ := strconv.ParseUint(c.Args[1], 10, 32)
@@ -421,4 +431,6 @@ func Run(c *hx.Ctx) {
 	sgCases(c)
 	// 8. HTTP/2 client stream table: concurrent requests on one connection, answers frame by frame in any order (h2tbl.go)
 	h2tCases(c)
+	// 8. pooled downStream object: late timer callbacks against the generation tag (pgen.go)
+	pgCases(c)
 }
